@@ -433,7 +433,8 @@ pub fn run_standalone(c: &Case) -> Verdict {
             let mut p = Puppet::spawn();
             p.add_thread(Kind::Block);
             let shm = |name: &str, content: &[u8]| -> Vec<u8> {
-                let path = format!("/dev/shm/mdv_{}_{name}", std::process::id());
+                // per worker thread: concurrent cases must not unlink each other's files
+                let path = format!("/dev/shm/mdv_{}_{:?}_{name}", std::process::id(), std::thread::current().id()).replace(['(', ')'], "");
                 let _ = std::fs::write(&path, content);
                 path.into_bytes()
             };
@@ -455,7 +456,7 @@ pub fn run_standalone(c: &Case) -> Verdict {
             drop(p);
             if let Ok(rd) = std::fs::read_dir("/dev/shm") {
                 for e in rd.flatten() {
-                    if e.file_name().to_string_lossy().starts_with(&format!("mdv_{}_", std::process::id())) {
+                    if e.file_name().to_string_lossy().starts_with(&format!("mdv_{}_{:?}_", std::process::id(), std::thread::current().id()).replace(['(', ')'], "")) {
                         let _ = std::fs::remove_file(e.path());
                     }
                 }
